@@ -62,3 +62,15 @@ claim("C33", "E6-ref", "exploration", "differential runtime monitor vs independe
       "types.NewSession driven with a stub keeper over tens of thousands of generated populations (jailed, over-chained, missing, chain-less nodes; heights around the max-chains activation); result compared with an independently written selector (own SHA3), distinctness/count/eligibility/error-iff asserted, repeated in a second OS process; held-on-observed",
       "trusted: Go runtime, the reference selector in internal/ref/sessionref (imports nothing from pocket-core)", "DESIGN.md §4 C33")
 ENGINES.append({"name": "E6-ref", "path": "internal/ref/*", "serves_properties": ["C33"], "kind_free_text": "independent reference implementations used as oracles for pure functions"})
+
+TXNOTE = E3NOTE + "; per-transaction attribution uses decoded snapshots of the working stores taken before and after every DeliverTx (the deliver context writes straight into them)"
+ENGINES[-2]["serves_properties"] += ["C14", "C15", "C18"]
+claim("C18", "E3-chain", "exploration", "per-transaction pre/post state oracle over generated sends (boundary amounts, recipient classes) on the real app",
+      "hundreds of generated send transactions per run with amounts at and around the sender's balance, to existing/new/self/module recipients; every balance change of every account compared with the allowed delta sets, other stores must stay untouched, post-state canonical; held-on-observed",
+      TXNOTE, "DESIGN.md §4 C18")
+claim("C14", "E3-chain", "exploration", "per-transaction pre/post state oracle over the tx matrix (message type x signer relation x signature defect), generator-labelled authorization",
+      "every message type signed by owners, output addresses, declared-but-unentitled signers, strangers and impersonators, with corrupted/missing/wrong-chain/forged signatures: unauthorized transactions must be rejected with every store digest unchanged, unentitled ones may move only the fee; accepted authorized transactions are required as positive controls; held-on-observed",
+      TXNOTE, "DESIGN.md §4 C14")
+claim("C15", "E3-chain", "exploration", "per-transaction pre/post state oracle over the tx matrix with fee variants (below/equal/above/zero, unpayable) and failing messages",
+      "authenticated transactions must move exactly the declared fee to the fee collector (also when the message then fails, and nothing else in that case), balances are conserved against the supply, transactions rejected before/during authentication move nothing, fees below the requirement are never accepted; held-on-observed",
+      TXNOTE, "DESIGN.md §4 C15")
